@@ -23,6 +23,15 @@ def make_run(cfg, answer, **kw):
                      refine=cfg.get("refine", False), **kw)
 
 
+def _horizon(run, cfg):
+    """the step raised because doubles cannot resolve the interval any more (C03 known finding)"""
+    from mc.monitors import resolution_horizon
+    try:
+        return resolution_horizon(run, cfg)
+    except Exception:
+        return False
+
+
 def _listeners(visitor, cfg):
     return visitor.listeners(cfg) if hasattr(visitor, "listeners") else ()
 
@@ -76,7 +85,9 @@ def run_tree_block(task, visitor):
             try:
                 run.step(1)
             except BaseException as e:   # the step-wise API must not raise for a well-behaved objective
-                if j >= new_from:
+                if _horizon(run, cfg):
+                    stats["horizon_stops"] = stats.get("horizon_stops", 0) + 1
+                elif j >= new_from:
                     viol.append(dict(driver="tree", cfg=cfg, alphabet=alphabet, choices=list(leaf[:j]),
                                      message=f"DoGlobalIteration raised {type(e).__name__}: {e} at trial {j}",
                                      sig=dict(kind="step_raises")))
@@ -108,7 +119,8 @@ def replay_tree(rec, visitor):
         try:
             run.step(1)
         except BaseException as e:
-            msgs.append(f"DoGlobalIteration raised {type(e).__name__}: {e} at trial {j}")
+            if not _horizon(run, cfg):
+                msgs.append(f"DoGlobalIteration raised {type(e).__name__}: {e} at trial {j}")
             return msgs
         msgs += list(visitor.node(run, j, True) or ())
     msgs += list(visitor.leaf(run) or ())
@@ -150,6 +162,11 @@ def run_dev(cfg, default_fn, alts, dev, h, visitor):
         try:
             run.step(1)
         except BaseException as e:
+            if _horizon(run, cfg):
+                visitor.horizon_stop = j
+                for m in visitor.leaf(run) or ():
+                    msgs_all.append((j - 1, m))
+                return nodes, j - 1, msgs_all
             msgs_all.append((j, f"DoGlobalIteration raised {type(e).__name__}: {e} at trial {j}"))
             return nodes, j - 1, msgs_all
         new = j >= new_from
